@@ -41,6 +41,13 @@ Proof.
   apply andb_true_iff in Hok. apply Hok.
 Qed.
 
+Theorem graph_edges_bool_n : forall n, 2 <= n <= 6 ->
+  forall a b, In a (g_nodes (build_graph n)) -> In b (g_nodes (build_graph n)) ->
+    (has_edge (build_graph n) a b <-> spec_adjacent n a b = true).
+Proof.
+  intros n Hn a b Ha Hb. rewrite spec_adjacent_spec. apply (graph_edges_n n Hn); assumption.
+Qed.
+
 (* G3 *)
 Theorem load_total : forall (cand : Type) (ceqb : cand -> cand -> bool),
   (forall a b, reflect (a = b) (ceqb a b)) ->
